@@ -7,11 +7,11 @@ Open Scope list_scope.
 Definition is_annotation (t : string) : bool :=
   has_prefix t "-- name:" || (has_prefix t "/* name:" && has_suffix t "*/").
 Definition is_comment_line (t : string) : bool :=
-  has_prefix t "--" || (has_prefix t "/*" && has_suffix t "*/").
+  has_prefix t "--" || block_line t.
 Definition comment_text (t : string) : list string :=
   if is_annotation t then []
   else if has_prefix t "--" then [trim_prefix t "--"]
-  else if has_prefix t "/*" && has_suffix t "*/" then [trim_suffix (trim_prefix t "/*") "*/"]
+  else if block_line t then [trim_suffix (trim_prefix t "/*") "*/"]
   else [].
 
 Theorem strip_comments_spec sql s cs :
@@ -34,7 +34,7 @@ Proof.
       + rewrite IH. reflexivity.
       + destruct (has_prefix t "--") eqn:E3; cbn [orb negb andb].
         * rewrite IH, <- app_assoc. reflexivity.
-        * destruct (has_prefix t "/*" && has_suffix t "*/") eqn:E4; cbn [negb andb].
+        * destruct (block_line t) eqn:E4; cbn [negb andb].
           -- rewrite IH, <- app_assoc. reflexivity.
           -- rewrite IH, <- app_assoc. reflexivity. }
   rewrite (G ls [] []) in H. cbn [fst snd app] in H. inversion H; subst. split; reflexivity.
